@@ -56,6 +56,25 @@ def gen_scenarios(v, tier, seed, rng):
         sc = g.scenario(w, "")
         sc["threads"] = 2
         scen.append(sc)
+    # access-time alphabet (age, touch, expire, read) over every initial access order
+    cfg = "PieceStore_edgesLRUq.cfg" if tier == "quick" else "PieceStore_edgesLRU.cfg"
+    r = run_tlc("GenPieceStore", cfg, workers=1, timeout=1800)
+    require_ok(r, "edge dump " + cfg)
+    g2 = Graph.from_result(r, is_init)
+    os.unlink(r.outfile)
+    walks2, unc = g2.covering_walks(rng, maxlen=40)
+    if unc or not g2.inits:
+        raise Internal("edge dump %s: %d edges unreachable" % (cfg, unc))
+    v.cov["edge_graph_lru"] = {"cfg": cfg, "states": len(g2.states), "edges": g2.nedges, "covering_walks": len(walks2)}
+    if limit and len(walks2) > limit // 2:
+        rng.shuffle(walks2)
+        walks2 = walks2[:limit // 2]
+        v.cov["edge_graph_lru"]["walks_replayed"] = len(walks2)
+    for w in walks2:
+        sc = g2.scenario(w, "")
+        sc["threads"] = 2
+        sc["np"] = 3
+        scen.append(sc)
     # simulation: 4 threads, 3 pieces
     n = 1500 if tier == "quick" else 20000
     r = run_tlc("GenPieceStore", "PieceStore_sim.cfg", workers=1, simulate=n, depth=40, seed=seed, timeout=1800)
@@ -75,6 +94,16 @@ def gen_scenarios(v, tier, seed, rng):
     return scen
 
 
+def stress_scenarios(tier, seed, start_id):
+    n, ms = (6, 1500) if tier == "quick" else (48, 5000)
+    out = []
+    for k in range(n):
+        out.append({"id": start_id + k, "threads": 0,
+                    "stress": {"seed": seed * 7919 + k, "millis": ms, "psize": [1 << 20, 256 << 10, 32 << 10][k % 3],
+                               "pieces": 4, "del": k % 2 == 1}})
+    return out
+
+
 def random_scenarios(tier, seed, start_id):
     n = 300 if tier == "quick" else 6000
     out = []
@@ -92,13 +121,13 @@ def validate_traces(v, prop, events_by_cfg, scen_of_line):
         if not lines:
             continue
         wd = vlib.scratch("trace-")
-        tf = os.path.join(wd, "trace%d.ndjson" % nt)
+        tf = os.path.join(wd, "trace%s.ndjson" % nt)
         with open(tf, "w") as f:
             for _, _, e in lines:
                 f.write(json.dumps(e, separators=(",", ":")) + "\n")
         ntraces = sum(1 for _, _, e in lines if e["a"] == "reset")
         # monitor pass: property invariants on every observed state
-        r = run_tlc("PieceStoreTrace", "PieceStoreMon_%d.cfg" % nt, workdir=wd, workers=1, env={"TRACE": tf}, timeout=3600)
+        r = run_tlc("PieceStoreTrace", "PieceStoreMon_%s.cfg" % nt, workdir=wd, workers=1, env={"TRACE": tf}, timeout=3600)
         if r.violation:
             m = re.findall(r"^/\\ l = (\d+)", open(r.outfile).read(), re.M)
             line = int(m[-1]) - 1 if m else 0
@@ -115,16 +144,24 @@ def validate_traces(v, prop, events_by_cfg, scen_of_line):
         v.cov["states"] += r.distinct
         v.cov["transitions"] += r.generated
         # strict pass: the log must be a behaviour of the specification
-        r = run_tlc("PieceStoreTrace", "PieceStoreTrace_%d.cfg" % nt, workdir=wd, workers=1, env={"TRACE": tf}, timeout=3600)
+        r = run_tlc("PieceStoreTrace", "PieceStoreTrace_%s.cfg" % nt, workdir=wd, workers=1, env={"TRACE": tf}, timeout=3600)
         if not r.ok:
             raise Internal("trace validation failed: %s\n%s" % (r.error or r.violation, r.tail))
-        bad = sorted(int(x) for x in r.lines("BADLINE"))
+        bad = sorted((int(x.split()[0]), x.split()[1], (x.split() + [""])[2]) for x in r.lines("BADLINE"))
         badscen = {}
-        for b in bad:
+        for b, act, diag in bad:
             sid, step, e = lines[b - 1]
-            badscen.setdefault(sid, (step, e["t"], e["a"]))
-        for sid, (step, t, a) in list(badscen.items())[:10]:
-            v.warn("nonconformance: scenario %s step %s (%s %s) is not a step of PieceStore.tla" % (sid, step, t, a))
+            if sid in badscen:
+                continue          # only the first unexplained line of a trace is meaningful
+            badscen[sid] = (step, e["t"], act, diag)
+            # which pieces an eviction pass drops and reports is a C03 observable
+            if prop == "C03" and act in ("ExpOne", "ExpBytes", "ExpBegin") and \
+               any(f in diag for f in ("hasbuf", "ret")) and "pc" not in diag:
+                v.violation("expire-order", "an eviction pass dropped or reported other pieces than least-recently-used "
+                            "order (commonest first beyond 2 h) requires: scenario %s step %s (%s), specification and "
+                            "implementation differ in %s" % (sid, step, act, diag), scen_of_line.get(sid))
+        for sid, (step, t, a, diag) in list(badscen.items())[:10]:
+            v.warn("nonconformance: scenario %s step %s (%s %s) is not a step of PieceStore.tla [%s]" % (sid, step, t, a, diag))
         v.cov["traces_validated_against_impl"] += ntraces
         v.cov.setdefault("trace_validation", []).append(
             {"threads": nt, "traces": ntraces, "events": len(lines), "rejected_traces": len(badscen),
@@ -154,6 +191,7 @@ def run(prop, tier, seed, replay=None):
         # 2. behaviours from the specification, 3. replay on the implementation
         scen = gen_scenarios(v, tier, seed, rng)
         scen += random_scenarios(tier, seed, len(scen))
+        scen += stress_scenarios(tier, seed, len(scen))
     vh = vlib.build_harness()
     wd = vlib.scratch("ps-")
     sf, rf = os.path.join(wd, "scen.ndjson"), os.path.join(wd, "res.ndjson")
@@ -162,7 +200,8 @@ def run(prop, tier, seed, replay=None):
             f.write(json.dumps(sc, separators=(",", ":")) + "\n")
     out, err = vlib.run_harness(vh, ["piecestore", "-in", sf, "-out", rf, "-parallel", "12", "-timeout", "40"], timeout=7200)
     log(out.strip())
-    events = {2: [], 3: [], 4: []}
+    events = {"2": [], "2x3": [], "3": [], "4": []}
+    stress_stats = {"runs": 0, "reads": 0, "reads_returning_data": 0, "blocks_added": 0, "pieces_verified": 0, "evictions": 0}
     scen_by_id = {}
     nres = 0
     steps_total = 0
@@ -194,11 +233,17 @@ def run(prop, tier, seed, replay=None):
                 v.warn("scenario %s: %s violation %s: %s" % (sid, vi["prop"], vi["key"], vi["what"]))
         for nc in o.get("nonconf") or []:
             v.warn("nonconformance: scenario %s %s" % (sid, nc))
+        if "stress" in sc:
+            stress_stats["runs"] += 1
+            for a, b in (("reads", "reads"), ("reads_returning_data", "reads_data"), ("blocks_added", "adds"),
+                         ("pieces_verified", "finalised"), ("evictions", "evictions")):
+                stress_stats[a] += o.get(b, 0)
+            continue
         steps_total += o.get("steps_done", 0)
-        nt = sc.get("threads", 2)
+        nt = str(sc.get("threads", 2)) + ("x3" if sc.get("np") == 3 else "")
         for k, e in enumerate(o.get("events") or []):
             events[nt].append((sid, k, e))
-        if "random" not in sc:
+        if "random" not in sc and "stress" not in sc:
             v.sample({"scenario": sid, "geom": sc.get("geom"), "steps": [[s["a"]["t"], s["a"]["a"]] for s in sc["steps"]][:14]})
     if nres != len(scen):
         raise Internal("harness returned %d results for %d scenarios" % (nres, len(scen)))
@@ -208,5 +253,8 @@ def run(prop, tier, seed, replay=None):
                      "behaviours (4 threads, 3 pieces) and seeded random gate schedules; each replayed on the real "
                      "piece.Pieces with gated goroutines, distinct = distinct action sequences")
     v.cov["impl_steps_replayed"] = steps_total
+    v.cov["free_running_stress"] = stress_stats
+    if not replay and stress_stats["reads_returning_data"] == 0:
+        raise Internal("free-running stress never read any data (vacuous)")
     validate_traces(v, prop, events, scen_by_id)
     return v.finish()
